@@ -87,9 +87,14 @@ def discharge_one(ob, cross=False):
     if r == z3.unknown and not ob.expect_sat:
         # quantifier instantiation is seed-sensitive: before giving up on z3, retry with other seeds / instantiation settings
         # (a verdict, once reached, is a proof; the retries only make the outcome independent of VERIF_SEED and machine load)
-        for seed2, mbqi in ((7, True), (42, True), (1234, False), (99, True)):
+        # Measured on the permutation obligations of _apply_pending_bound_updates: an attempt either answers within a second or never, about
+        # one attempt in three never does, and which one does is not even a function of the seed (it depends on what the z3 context has seen
+        # before) - so many short attempts beat few long ones.  The first four are the original schedule, the rest was added after a loaded
+        # machine lost all four (vp check 7: C12 reported UNDECIDED on the unchanged tree although nothing was wrong).
+        t_retry = max(4000, Z3_TIMEOUT_MS // 3)
+        for seed2, mbqi in ((7, True), (42, True), (1234, False), (99, True), (5, False), (9, True), (12, False), (15, True), (3, False), (11, True), (13, True), (2, False)):
             s2 = z3.Solver()
-            s2.set("timeout", max(4000, Z3_TIMEOUT_MS // 3))
+            s2.set("timeout", t_retry)
             s2.set("random_seed", seed2)
             if not mbqi:
                 s2.set("smt.mbqi", False)
@@ -100,6 +105,12 @@ def discharge_one(ob, cross=False):
             if r != z3.unknown:
                 s = s2
                 break
+    if retries and os.environ.get("VERIF_RETRY_LOG"):           # diagnostics only: which obligations needed a reseeded attempt
+        try:
+            with open(os.environ["VERIF_RETRY_LOG"], "a") as fh:
+                fh.write("%d\t%s\t%s\n" % (retries, r, ob.name))
+        except OSError:
+            pass
     weak_cover = False
     if ob.expect_sat and r == z3.unknown:
         # sat under quantified hypotheses is rarely decidable: fall back to the quantifier-free hypotheses (weaker vacuity guard, stated)
